@@ -30,7 +30,7 @@ def cfg_fn(rng):
     return gen.random_config(rng, p3d=0.15)
 
 
-WEIGHTS = {"update_attrs": 1.5}
+WEIGHTS = {"update_attrs": 1.5, "ctrl": 1.0}
 
 
 def plan(tier, seed):
